@@ -111,3 +111,15 @@ From DK.Proofs Require Import Total TotalConvex.
 Theorem C05_exact_gradient_gives_certificate_hypothesis : forall (F : list R -> R) (G : list R -> list R) (x : list R) (r : R),
   0 < r -> (forall y, vnear x y r -> grad_at F (G y) y) -> gcont G x -> has_gradient F x (G x).
 Proof. exact exact_gradient_gives_certificate_hypothesis. Qed.
+
+(* ---- solver options (any carrier): a call without overrides runs with the documented defaults ftol 1e-6 / maxiter 1000 / disp
+   False whatever was passed to earlier calls (the model is a function of this call's arguments only; ./check C05 observes the
+   options the optimiser receives in call SEQUENCES with different overrides); a key the caller passes wins ---- *)
+Theorem C05_options_are_the_defaults_overridden_by_this_call : forall (A : Type) (NA : Num A) (u : sopts A),
+  so_ftol (solve_options u) = match so_ftol u with Some v => Some v | None => Some (ndiv n1 (nofZ 1000000)) end /\
+  so_maxiter (solve_options u) = match so_maxiter u with Some v => Some v | None => Some 1000%Z end /\
+  so_disp (solve_options u) = match so_disp u with Some v => Some v | None => Some false end.
+Proof. intros A NA. exact (@solve_options_spec A NA). Qed.
+Theorem C05_no_overrides_means_the_defaults : forall (A : Type) (NA : Num A),
+  solve_options (@Build_sopts A None None None) = default_opts.
+Proof. intros A NA. exact (@solve_options_no_override A NA). Qed.
